@@ -17,33 +17,33 @@ import (
 // discharges but that hold by a contract outside the function. One line of
 // reason each; keyed by function and expression, never by line.
 var trustedIndex = map[string]string{
-	"Sources.MarshalBinary: pb.Items[i]":                     "pb.Items is made with len(a) and i ranges over a",
-	"(*Sources).UnmarshalBinary: pb.GetItems()[i]":           "i ranges over the same pb.GetItems() (generated getter returns the field)",
-	"(*Sources).UnmarshalBinary: (*a)[i]":                    "*a is made with len(pb.GetItems()) and i ranges over pb.GetItems()",
-	"matchRegex: concat[i * len(vals) + j]":                  "concat is made with len(names)*len(vals); i ranges over names and j over vals",
-	"matchRegex: re.Rune[i + 1]":                             "regexp/syntax contract: OpCharClass Rune holds lo,hi pairs (even length); loop steps by 2",
-	"matchRegex: re.Rune[i]":                                 "loop condition i < len(re.Rune)",
-	"matchRegex: re.Sub[0]":                                  "regexp/syntax contract: OpCapture has exactly one sub-expression; OpConcat/OpAlternate after Simplify have >= 2",
-	"matchRegex: re.Sub[1:]":                                 "regexp/syntax contract: OpConcat has >= 2 sub-expressions",
-	"(*SelectStatement).ColumnNames: columnNames[0]":         "columnNames has len(columnFields)+offset entries and offset is 1 under the same !s.OmitTime test",
+	"Sources.MarshalBinary: pb.Items[i]":                      "pb.Items is made with len(a) and i ranges over a",
+	"(*Sources).UnmarshalBinary: pb.GetItems()[i]":            "i ranges over the same pb.GetItems() (generated getter returns the field)",
+	"(*Sources).UnmarshalBinary: (*a)[i]":                     "*a is made with len(pb.GetItems()) and i ranges over pb.GetItems()",
+	"matchRegex: concat[i * len(vals) + j]":                   "concat is made with len(names)*len(vals); i ranges over names and j over vals",
+	"matchRegex: re.Rune[i + 1]":                              "regexp/syntax contract: OpCharClass Rune holds lo,hi pairs (even length); loop steps by 2",
+	"matchRegex: re.Rune[i]":                                  "loop condition i < len(re.Rune)",
+	"matchRegex: re.Sub[0]":                                   "regexp/syntax contract: OpCapture has exactly one sub-expression; OpConcat/OpAlternate after Simplify have >= 2",
+	"matchRegex: re.Sub[1:]":                                  "regexp/syntax contract: OpConcat has >= 2 sub-expressions",
+	"(*SelectStatement).ColumnNames: columnNames[0]":          "columnNames has len(columnFields)+offset entries and offset is 1 under the same !s.OmitTime test",
 	"(*SelectStatement).ColumnNames: columnNames[i + offset]": "i ranges over columnFields and columnNames has len(columnFields)+offset entries",
-	"(*SelectStatement).RewriteTimeFields: s.Fields[:i]":     "i < len(s.Fields) by the loop condition",
-	"(*SelectStatement).RewriteTimeFields: s.Fields[i + 1:]": "i < len(s.Fields) by the loop condition, so i+1 <= len",
-	"Sanitize: match[2]":                                     "regexp contract: FindAllStringSubmatchIndex yields 2*(1+groups) indices; both patterns have one group",
-	"Sanitize: match[3]":                                     "regexp contract: FindAllStringSubmatchIndex yields 2*(1+groups) indices; both patterns have one group",
-	"Sanitize: query[i:match[2]]":                            "regexp contract: match offsets are increasing and within the searched string",
-	"Sanitize: query[i:]":                                    "i is a match end offset of the same string",
-	"(*bufScanner).scanFunc: s.buf[s.i]":                     "s.i is only ever assigned (s.i+1) % len(s.buf)",
-	"(*reader).read: r.buf[r.i]":                             "r.i is only ever assigned (r.i+1) % len(r.buf)",
-	"(*reader).curr: r.buf[i]":                               "i is computed modulo len(r.buf) on the line above",
-	"init: tokens[tok]":                                      "tok ranges over keywordBeg+1..keywordEnd-1, all below the array length (array sized by the last constant)",
+	"(*SelectStatement).RewriteTimeFields: s.Fields[:i]":      "i < len(s.Fields) by the loop condition",
+	"(*SelectStatement).RewriteTimeFields: s.Fields[i + 1:]":  "i < len(s.Fields) by the loop condition, so i+1 <= len",
+	"Sanitize: match[2]":                                      "regexp contract: FindAllStringSubmatchIndex yields 2*(1+groups) indices; both patterns have one group",
+	"Sanitize: match[3]":                                      "regexp contract: FindAllStringSubmatchIndex yields 2*(1+groups) indices; both patterns have one group",
+	"Sanitize: query[i:match[2]]":                             "regexp contract: match offsets are increasing and within the searched string",
+	"Sanitize: query[i:]":                                     "i is a match end offset of the same string",
+	"(*bufScanner).scanFunc: s.buf[s.i]":                      "s.i is only ever assigned (s.i+1) % len(s.buf)",
+	"(*reader).read: r.buf[r.i]":                              "r.i is only ever assigned (r.i+1) % len(r.buf)",
+	"(*reader).curr: r.buf[i]":                                "i is computed modulo len(r.buf) on the line above",
+	"init: tokens[tok]":                                       "tok ranges over keywordBeg+1..keywordEnd-1, all below the array length (array sized by the last constant)",
 	"(*Parser).parseCreateSubscriptionStatement: tokens[tok]": "tok is a Token constant returned by the scanner",
-	"(*Parser).parseTokens: tokens[expected]":                "expected ranges over Token constants supplied by callers",
-	"ParseDuration: a[i]":                                    "guarded by i < len(a) / i >= len(a) return on every path (value-level, confirmed by reading)",
-	"ParseDuration: a[i + 1]":                                "guarded by i+1 < len(a) in the same condition",
-	"ParseDuration: a[start:i]":                              "start <= i <= len(a) by the digit loop",
-	"ParseDuration: a[i:i + 2]":                              "guarded by i+1 < len(a)",
-	"(*SelectStatement).RewriteRegexConditions$lit: vals[i]": "loop condition i < len(vals)",
+	"(*Parser).parseTokens: tokens[expected]":                 "expected ranges over Token constants supplied by callers",
+	"ParseDuration: a[i]":                                     "guarded by i < len(a) / i >= len(a) return on every path (value-level, confirmed by reading)",
+	"ParseDuration: a[i + 1]":                                 "guarded by i+1 < len(a) in the same condition",
+	"ParseDuration: a[start:i]":                               "start <= i <= len(a) by the digit loop",
+	"ParseDuration: a[i:i + 2]":                               "guarded by i+1 < len(a)",
+	"(*SelectStatement).RewriteRegexConditions$lit: vals[i]":  "loop condition i < len(vals)",
 }
 
 type totality struct {
